@@ -111,31 +111,43 @@ def truthy : Option Int → Bool
 def setTrackedPos (e : Env) (a : Acc) (x y : Int) : Acc :=
   a.setTracked (some (max 0 (min x ((e.w : Int) - 1)), max 0 (min y ((e.h : Int) - 1))))
 
+/-- the two `if down:` / `if right:` blocks of `move_cursor` -/
+def vtoks : Option Int → List Chunk
+  | some d => if d > 0 then [csi [d.toNat] 'B'] else if d < 0 then [csi [(-d).toNat] 'A'] else []
+  | none => []
+def htoks : Option Int → List Chunk
+  | some r => if r > 0 then [csi [r.toNat] 'C'] else if r < 0 then [csi [(-r).toNat] 'D'] else []
+  | none => []
+
 /-- `move_cursor(right=, down=, left=, up=)` -/
 def moveCursor (e : Env) (a : Acc) (right down left up : Option Int) : Acc :=
   if up.isSome && down.isSome then a.fail .value else
   let down := match up with | some u => some (-u) | none => down
   if left.isSome && right.isSome then a.fail .value else
   let right := match left with | some l => some (-l) | none => right
-  let a := match down with
-    | some d => if d > 0 then a.emit [csi [d.toNat] 'B'] else if d < 0 then a.emit [csi [(-d).toNat] 'A'] else a
-    | none => a
-  let a := match right with
-    | some r => if r > 0 then a.emit [csi [r.toNat] 'C'] else if r < 0 then a.emit [csi [(-r).toNat] 'D'] else a
-    | none => a
+  let a := a.emit (vtoks down)
+  let a := a.emit (htoks right)
   match a.s.tracked with
   | some (x, y) =>
     if truthy down && a.s.margins then a.setTracked none           -- D5
     else setTrackedPos e a (x + right.getD 0) (y + down.getD 0)
   | none => a
 
+/-- the `if row is not None:` / `if col is not None:` blocks of `move_cursor_abs` -/
+def rowToks : Option Nat → List Chunk
+  | some r => [csi [r + 1] 'd']
+  | none => []
+def colToks : Option Nat → List Chunk
+  | some c => [csi [c + 1] 'G']
+  | none => []
+
 /-- `move_cursor_abs(col=, row=, pos=)`; coordinates are non-negative. -/
 def moveCursorAbs (e : Env) (a : Acc) (col row : Option Nat) (pos : Option (Nat × Nat)) : Acc :=
   if pos.isSome && (row.isSome || col.isSome) then a.fail .value else
   let col := match pos with | some (c, _) => some c | none => col
   let row := match pos with | some (_, r) => some r | none => row
-  let a := match row with | some r => a.emit [csi [r + 1] 'd'] | none => a
-  let a := match col with | some c => a.emit [csi [c + 1] 'G'] | none => a
+  let a := a.emit (rowToks row)
+  let a := a.emit (colToks col)
   match a.s.tracked with
   | some (x, y) =>
     setTrackedPos e a (match col with | some c => (c : Int) | none => x) (match row with | some r => (r : Int) | none => y)   -- D2
@@ -185,19 +197,21 @@ def clearScreen (a : Acc) : Acc := a.emit [csi [1] 'J', csi [0] 'J']
 /-- `write(bytes)` and `writecmd(bytes)`: the same effect on the (single) terminal. -/
 def write (a : Acc) (bs : Bytes) : Acc := ((a.emit [.raw bs]).setTracked none).setMargins true
 
-/-- `ImagePlaceholder.to_stream_at_cursor` around the given lines. `width = end_col - start_col`. -/
-def toStreamAtCursor (lines : List Bytes) (width : Nat) (useSave useLF : Bool) : List Chunk :=
-  let n := lines.length
-  (lines.zipIdx).flatMap fun (line, idx) =>
-    let last := idx + 1 == n
-    (if !useLF && useSave && !last then [csi [] 's'] else []) ++ [Chunk.raw line] ++
-    (if last then []
-     else if useLF then [.tok (.c0 10)]
-     else (if useSave then [csi [] 'u'] else [csi [width] 'D']) ++ [escF 'D'])
+/-- `ImagePlaceholder.to_stream_at_cursor` around the given lines (`width = end_col - start_col`):
+    every line but the last is followed by the move to the start of the next row. -/
+def toStreamAtCursor (width : Nat) (useSave useLF : Bool) : List Bytes → List Chunk
+  | [] => []
+  | [line] => [.raw line]
+  | line :: rest =>
+    (if !useLF && useSave then [csi [] 's'] else []) ++ [Chunk.raw line] ++
+    (if useLF then [.tok (.c0 10)]
+     else (if useSave then [csi [] 'u'] else [csi [width] 'D']) ++ [escF 'D']) ++
+    toStreamAtCursor width useSave useLF rest
 
-/-- `to_stream_abs_position` -/
-def toStreamAbs (lines : List Bytes) (pos : Nat × Nat) : List Chunk :=
-  (lines.zipIdx).flatMap fun (line, idx) => [csi [pos.2 + idx + 1, pos.1 + 1] 'H', Chunk.raw line]
+/-- `to_stream_abs_position`: every line is preceded by a CUP to its row. -/
+def toStreamAbs (pos : Nat × Nat) : Nat → List Bytes → List Chunk
+  | _, [] => []
+  | idx, line :: rest => [csi [pos.2 + idx + 1, pos.1 + 1] 'H', Chunk.raw line] ++ toStreamAbs pos (idx + 1) rest
 
 /-- arguments of `print_placeholder` as far as the tracker is concerned; `lines` is the result of
     `to_lines` on the resulting placeholder (`none`: it raised) -/
@@ -217,8 +231,8 @@ def printPlaceholder (a : Acc) (p : PhArgs) : Acc :=
   | none => a.fail .value
   | some ls =>
     let a := a.emit (match p.pos with
-      | some pos => toStreamAbs ls pos
-      | none => toStreamAtCursor ls p.width p.useSave p.useLF)
+      | some pos => toStreamAbs pos 0 ls
+      | none => toStreamAtCursor p.width p.useSave p.useLF ls)
     a.setTracked none                                                   -- D4
 
 /-- arguments of `print_placeholder_for_put`; `lines c r` = `to_lines` of the `c`×`r` placeholder
@@ -230,6 +244,33 @@ structure PutArgs where
   noMove : Bool := false                      -- `do_not_move_cursor` truthy  (C=1)
   lines : Nat → Nat → List Bytes
 
+/-- last part of `print_placeholder_for_put`: where the cursor is left after the placeholder was
+    printed from the queried position `(curX, curY)`. -/
+def putFinish (e : Env) (a : Acc) (noMove : Bool) (curX curY cols rows : Int) : Acc :=
+  let a :=
+    if noMove then
+      moveCursorAbs e a (some curX.toNat) (some curY.toNat) none
+    else if curX + cols ≥ (e.w : Int) then
+      setTrackedPos e (a.emit [escF 'E']) 0 (curY + rows)
+    else
+      setTrackedPos e a (curX + cols) (curY + rows - 1)
+  if a.s.margins && !noMove then a.setTracked none else a            -- D5
+
+/-- middle part: query the position again, print the `cols`×`rows` placeholder. -/
+def putPrint (e : Env) (a : Acc) (p : PutArgs) (cols rows : Int) : Acc :=
+  let (a, (curX, curY)) := getCursorPosition e a
+  if a.err.isSome then a else
+  let a := a.setTracked none
+  let a := printPlaceholder a { lines := some (p.lines cols.toNat rows.toNat), width := cols.toNat }
+  putFinish e a p.noMove curX curY cols rows
+
+/-- first part: the scrolling that makes room when the rows do not fit (`C=0`). -/
+def putScroll (e : Env) (a : Acc) (noMove : Bool) (rows curY : Int) : Acc :=
+  if decide ((e.h : Int) - curY < rows) && !noMove then
+    let nl := rows - ((e.h : Int) - curY)
+    moveCursor e (a.emit [csi [nl.toNat] 'S']) none none none (some nl)
+  else a
+
 /-- `print_placeholder_for_put(put_command)` -/
 def printPlaceholderForPut (e : Env) (a : Acc) (p : PutArgs) : Acc :=
   match p.rows, p.cols with
@@ -238,27 +279,10 @@ def printPlaceholderForPut (e : Env) (a : Acc) (p : PutArgs) : Acc :=
     let (a, (curX, curY)) := getCursorPositionTracked e a
     if a.err.isSome then a else
     let cols := min pcol ((e.w : Int) - curX)
-    let rows := prow
-    let fits := !decide ((e.h : Int) - curY < rows)
-    let rows := if !fits && p.noMove then (e.h : Int) - curY else rows
-    let a :=
-      if !fits && !p.noMove then
-        let nl := rows - ((e.h : Int) - curY)
-        moveCursor e (a.emit [csi [nl.toNat] 'S']) none none none (some nl)
-      else a
+    let rows := if decide ((e.h : Int) - curY < prow) && p.noMove then (e.h : Int) - curY else prow
+    let a := putScroll e a p.noMove prow curY
     if cols ≤ 0 || rows ≤ 0 then a else
-    let (a, (curX, curY)) := getCursorPosition e a
-    if a.err.isSome then a else
-    let a := a.setTracked none
-    let a := printPlaceholder a { lines := some (p.lines cols.toNat rows.toNat), width := cols.toNat }
-    let a :=
-      if p.noMove then
-        moveCursorAbs e a (some curX.toNat) (some curY.toNat) none
-      else if curX + cols ≥ (e.w : Int) then
-        setTrackedPos e (a.emit [escF 'E']) 0 (curY + rows)
-      else
-        setTrackedPos e a (curX + cols) (curY + rows - 1)
-    if a.s.margins && !p.noMove then a.setTracked none else a            -- D5
+    putPrint e a p cols rows
   | _, _ => a.fail .value
 
 /-- what `send_command` looks at -/
@@ -339,5 +363,22 @@ def parseCpr (reply : Bytes) : Option (Nat × Nat) := do
 /-- The terminal's cursor-position report as numbers (1-based column, row). -/
 def cprOf (t : Term) : Nat × Nat :=
   ((if t.cfg.cprClamps then min t.cx (t.w - 1) else t.cx) + 1, t.cy + 1)
+
+/-! ### histories: the tracker next to the specification terminal -/
+
+/-- The terminal answers `CSI 6 n` with its cursor-position report (`t` = the terminal when the
+    call started, `cs` = what the call has written since). -/
+def askOf (t : Term) : Nat → List Chunk → Option (Nat × Nat) := fun _ cs => some (cprOf (feedChunks t cs))
+
+/-- the terminal after everything written so far -/
+def termAfter (w h : Nat) (cfg : TermCfg) (written : List Chunk) : Term := feedChunks (Term.init w h cfg) written
+
+/-- one call of a history: state of the object and everything written so far -/
+def runStep (w h : Nat) (cfg : TermCfg) (st : Trk × List Chunk) (op : Op) : Trk × List Chunk :=
+  let a := step { w := w, h := h, ask := askOf (termAfter w h cfg st.2) } st.1 op
+  (a.s, st.2 ++ a.out)
+
+/-- a history of calls on a fresh object attached to a terminal in its initial state -/
+def run (w h : Nat) (cfg : TermCfg) (ops : List Op) : Trk × List Chunk := ops.foldl (runStep w h cfg) ({}, [])
 
 end Tup.Trk
